@@ -46,18 +46,27 @@ def corpus():
 
 def generate(rng, tier):
     cases = []
-    nbases = 60 if tier == "quick" else 1500
+    nbases = 160 if tier == "quick" else 1500
     maxperm = 4 if tier == "quick" else 5
     for b in range(nbases):
         big = rng.random() < 0.15
         nrows = rng.randint(6, 30) if big else rng.randint(0, maxperm)
         ncols = rng.randint(1, 4)
         pool = rng.sample(VALUES, rng.randint(2, 6))
+        collide = rng.random() < 0.3
+        if collide:
+            # different rows that render to the same / differently ordered joined line
+            pool = ["a", "b", "c", "a b", "b c", "a b c", "a  b"]
+            ncols = rng.randint(2, 3)
         rows = [[rng.choice(pool) for _ in range(ncols)] for _ in range(nrows)]
         qsort, fsort = rng.choice(SORTS), rng.choice(SORTS)
+        if collide and rng.random() < 0.7:
+            qsort, fsort = rng.choice([("rowsort", rng.choice(SORTS)), (None, "rowsort")])
         rmode = rng.choice([None, None, "rowwise", "valuewise"])
         eff = qsort if qsort else fsort
-        expected = ref_lines(rows, eff, rmode == "valuewise")
+        thr = rng.choice([None, None, None, 1, 2]) if rows else None
+        import refimpl
+        expected = refimpl.expected_lines(refimpl.shape(rows, ncols, eff, thr), rmode == "valuewise")
         mut = rng.random()
         if mut < 0.25 and expected:
             i = rng.randrange(len(expected))
@@ -75,9 +84,11 @@ def generate(rng, tier):
                 f2 = rng.sample(flat, len(flat))
                 perms.append([f2[i * ncols:(i + 1) * ncols] for i in range(nrows)])
         text = script(qsort, fsort, rmode, ncols, expected)
+        if thr:
+            text = "hash-threshold %d\n\n" % thr + text
         for pi, p in enumerate(perms):
             cases.append(runfam.impl_case(text, answers=[["rows", "T" * ncols, p]],
-                                          meta={"base": b, "perm": pi, "eff": eff, "rmode": rmode,
+                                          meta={"base": b, "perm": pi, "eff": eff, "rmode": rmode, "thr": thr,
                                                 "rows": p, "expected": expected}))
     return cases
 
@@ -131,7 +142,7 @@ def group_check(cases, outs):
                 bad.append({"case": c, "impl": v, "model": first[0], "broken": "C10_rowsort_perm/C10_valuesort_perm",
                             "spec": "contradicts L1: verdict %r for this permutation but %r for permutation %d of the same result set under %s"
                                     % (v, first[0], first[1]["meta"]["perm"], m["eff"])})
-        else:
+        elif not m.get("thr"):
             if m["rmode"] == "valuewise":
                 actual = [norm_v(x) for r in m["rows"] for x in r]
             else:
